@@ -23,9 +23,10 @@ Theorem c20_typed_cast : forall (a : ast) (i : nat) (ty v : Z),
 Proof. exact a_cast_spec. Qed.
 Print Assumptions c20_typed_cast.
 
-(* c20_typed_every_type: "typed access returns the value last stored" for EVERY type tag of the table (okty: 24 payload types of
-   sizeof 1, 4, 8, 9, 12, 15, 16, 24, 32, 40 - in place, heap, the sizes between one and two words, and pairs of DISTINCT types that
-   two translation units declare under the same name: tags 18..20 / 21..23, see c20_typed_same_name_other_unit): after ANY history, storing
+(* c20_typed_every_type: "typed access returns the value last stored" for EVERY type tag of the table (okty: 26 payload types of
+   sizeof 1, 4, 8, 9, 12, 15, 16, 24, 32, 40 - in place, heap, the sizes between one and two words, pairs of DISTINCT types that
+   two translation units declare under the same name: tags 18..20 / 21..23, see c20_typed_same_name_other_unit, and a polymorphic
+   base / derived pair: tags 24 / 25, see c20_typed_adopted_as_static_type): after ANY history, storing
    T(v) in holder i by the typed constructor or the typed operator= makes value_cast<T>(h[i]) yield v (normalised to the type's value
    range) and every other type a type error; a copy of that holder into another one (operator= / copy construction) and the other side
    of a swap yield v for T and a type error otherwise; no error flag.  The tag never enters the argument: value semantics are
@@ -44,8 +45,8 @@ Theorem c20_typed_every_type : forall (H M : nat) (tys : list Z) (ops : list op)
 Proof. exact last_stored_every_type. Qed.
 Print Assumptions c20_typed_every_type.
 
-(* non-vacuity: all 24 tags satisfy okty; a 12-byte payload (tag 12) stored, copied, swapped with an in-place int, written, re-assigned *)
-Example c20_every_tag_ok : forallb okty [0; 1; 2; 3; 4; 5; 6; 7; 8; 9; 10; 11; 12; 13; 14; 15; 16; 17; 18; 19; 20; 21; 22; 23] = true /\ okty 24 = false /\ okty (-1) = false.
+(* non-vacuity: all 26 tags satisfy okty; a 12-byte payload (tag 12) stored, copied, swapped with an in-place int, written, re-assigned *)
+Example c20_every_tag_ok : forallb okty [0; 1; 2; 3; 4; 5; 6; 7; 8; 9; 10; 11; 12; 13; 14; 15; 16; 17; 18; 19; 20; 21; 22; 23; 24; 25] = true /\ okty 26 = false /\ okty (-1) = false.
 Proof. exact every_tag_ok. Qed.
 Example c20_twelve_bytes_instance :
   let s := final 3 0 [] [OAssignVal 0 12 345; OConsCopy 1 0; OAssignVal 2 7 5; OSwap 0 2; OSetVal 2 346; OAssign 0 1] in
@@ -87,6 +88,50 @@ Example c20_same_name_other_unit_instance :
   fst (cast s (mslot 3 0) 23) = Some 9 /\ fst (cast s (mslot 3 0) 20) = None /\
   run_case [0; 1; 0; 1; 0; 21; 5; 12; 0; 18; 12; 0; 21] = [21; 5; 1; -1; 0; 0; 0; 0; 0;  0; 0;  21; 5; 1; -1; 0; 0; 0; 0; 0;  1; 5;  21; 5; 1; -1; 0; 0; 0; 0; 0;  0; 0; 0; 0; 0].
 Proof. exact same_name_other_unit_instance. Qed.
+
+(* c20_typed_adopted_as_static_type: the type of a holder is the type its value was stored or adopted AS, never the dynamic type of the
+   object behind the adopted pointer.  After ANY history: the client creates an object under tag ty (`T* p = new ...`; k = its index in the
+   client's pool) and holder i adopts it (assimilate): value_cast<T>(h[i]) yields the value, EVERY other type is a type error, and so for a
+   copy of the holder (operator=, copy construction: VTable<T>::clone copy-constructs a T) and the other side of a swap.  The case alphabet's
+   pseudo-tag 26 = `PBase* p = new PDerived(v)` (PDerived : PBase, PBase with a virtual destructor; harness tags 24 / 25) is decoded as
+   ty = static_ty 26 = 24: the object is adopted as PBase, so "every other type" includes PDerived, the class the object "really" is.
+   The C++ side of that statement (type() passes no object to the vtable's typeid slot and VTable<T>::typeinfo answers &typeid(T)) is a
+   translator anchor (tools/consts/C20.py); the harness drives real PDerived objects through every adopting operation. *)
+Theorem c20_typed_adopted_as_static_type : forall (H M : nat) (tys : list Z) (ops : list op) (i ty v k : Z),
+  okh H i = true -> okty ty = true -> k = Z.of_nat (length (cl (final H M tys ops))) ->
+  let hist := (ops ++ [ONew ty v]) ++ [OAdopt i k] in
+  let s := final H M tys hist in
+  err s = false /\
+  fst (cast s (hslot i) ty) = Some (norm ty v) /\
+  (forall ty', ty' <> ty -> fst (cast s (hslot i) ty') = None) /\
+  (forall j c, okh H j = true -> j <> i ->
+     c = OAssign j i \/ c = OConsCopy j i \/ c = OSwap i j \/ c = OSwap j i ->
+     let s' := final H M tys (hist ++ [c]) in
+     err s' = false /\ fst (cast s' (hslot j) ty) = Some (norm ty v) /\
+     (forall ty', ty' <> ty -> fst (cast s' (hslot j) ty') = None)).
+Proof. exact adopted_as_static_type. Qed.
+Print Assumptions c20_typed_adopted_as_static_type.
+(* the adopted-derived case on a concrete history (non-vacuity: okty (static_ty 26) holds): `new(26,5)` decodes to ONew 24 5; adopted by
+   holder 0, copy-constructed into holder 1, assigned to holder 2, written through value_cast<PBase>; a NotifiedValue<PBase> whose creator
+   returns a new PDerived parses 9 into the map; a second such object added to the map and re-added: type PBase (24) everywhere, PDerived
+   (25) refused everywhere, every object destroyed exactly once; a PDerived stored by value IS a PDerived (PBase refused); last conjunct:
+   the observation of the case `new(26,5), assimilate(0,0), cast(0,24), cast(0,25)` *)
+Example c20_adopted_derived_instance :
+  static_ty 26 = 24 /\ static_ty 24 = 24 /\ static_ty 25 = 25 /\ okty (static_ty 26) = true /\ size_of 24 = 16 /\ size_of 25 = 24 /\
+  stored_inplace 24 = false /\ stored_inplace 25 = false /\ instr 24 = true /\ instr 25 = true /\
+  decode_ops 10 [7; 26; 5; 9; 0; 0; 12; 0; 24; 12; 0; 25] = [ONew 24 5; OAdopt 0 0; OCast 0 24; OCast 0 25] /\
+  (let s := final 3 2 [24; 24] [ONew 24 5; OAdopt 0 0; OConsCopy 1 0; OAssign 2 0; OSetVal 0 6; OParse 0 9 1; ONew 24 7; OMapAdd 1 0; OMapAddSame 1] in
+   err s = false /\
+   map (fun i => fst (cast s (hslot i) 24)) [0; 1; 2] = [Some 6; Some 5; Some 5] /\
+   map (fun i => fst (cast s (hslot i) 25)) [0; 1; 2] = [None; None; None] /\
+   map (fun n => fst (cast s (mslot 3 n) 24)) [0; 1] = [Some 9; Some 7] /\
+   map (fun n => fst (cast s (mslot 3 n) 25)) [0; 1] = [None; None] /\
+   err (finish 3 2 s) = false /\ leaked (finish 3 2 s) = false /\ map e_dc (led (finish 3 2 s)) = [1; 1; 1; 1; 1]) /\
+  (let s := final 1 0 [] [OConsVal 0 25 8] in fst (cast s (hslot 0) 25) = Some 8 /\ fst (cast s (hslot 0) 24) = None) /\
+  run_case [0; 1; 0; 7; 26; 5; 9; 0; 0; 12; 0; 24; 12; 0; 25] =
+    [-1; 0; 0; -1;  1; 24; 5; 0;  1; 0; 0; 1; 0;     24; 5; 0; 0;  0;  1; 0; 0; 1; 0;    1; 5;  24; 5; 0; 0;  0;  1; 0; 0; 1; 0;    0; 0;  24; 5; 0; 0;  0;  1; 0; 0; 1; 0;
+     0; 1; 1; 0; 0].
+Proof. exact adopted_derived_instance. Qed.
 
 (* c20_in_place_only_if_fits: `in_place` is generated from the predicate of detail::vtable<T>() (value_store.h); the in-place table
    placement-constructs the object into the holder's single word (8 bytes on the LP64 target), so for ALL sizes the rule may select it
